@@ -75,7 +75,9 @@ pub fn main(args: &[String]) {
         Some("random") => {
             let n: usize = args[1].parse().unwrap();
             let mut rng = Rng::from_env(0xC18);
-            let pools: [&[char]; 4] = [&['a', 'b', 'c'], &['a', 'b', 'é', 'x'], &['a', '€', 'é', 'z'], &['q', '😀', 'é', 'a', 'b']];
+            // letters, multi-byte letters, letters differing by case only, and white space (a padded string is another string)
+            let pools: [&[char]; 6] = [&['a', 'b', 'c'], &['a', 'b', 'é', 'x'], &['a', '€', 'é', 'z'], &['q', '😀', 'é', 'a', 'b'],
+                                       &['a', 'A', 'b', 'B'], &['a', ' ', 'b', '\t']];
             // byte lengths around every budget threshold
             let targets = [3usize, 4, 5, 7, 8, 9, 12, 13, 14, 17, 18, 19, 24, 25, 26, 30];
             for _ in 0..n {
@@ -110,7 +112,16 @@ pub fn main(args: &[String]) {
                         acc.push(last);
                     }
                 }
-                let recv: String = base.iter().collect();
+                let mut recv: String = base.iter().collect();
+                // sometimes the received string is one of the candidates' bases with white space around it
+                if rng.chance(1, 6) {
+                    let pad = " ".repeat(1 + rng.below(3) as usize);
+                    recv = match rng.below(3) {
+                        0 => format!("{pad}{recv}"),
+                        1 => format!("{recv}{pad}"),
+                        _ => format!("{pad}{recv}{pad}"),
+                    };
+                }
                 run(&recv, &acc, &mut out);
             }
         }
